@@ -236,6 +236,16 @@ func psInputs(rng *core.Rng, style int, thorough bool) []psInput {
 	add("signed16-nonascii-line", append(bom16("x\r\n"+begin+"\r\n"+se[0]+"QUéD"+se[1]+"\r\n"+end+"\r\n")))
 	add("signed16-odd-line", append(append(bom16("x\r\n"+begin+"\r\n"), 'Q'), u16(se[0]+"QUJD"+se[1]+"\r\n"+end+"\r\n")...))
 	add("signed16-surrogates", append(bom16("x\r\n"+begin+"\r\n"), append([]byte{0x00, 0xd8, 0x00, 0xdc, 0x00, 0xdc}, u16(se[0]+"QUJD"+se[1]+"\r\n"+end+"\r\n")...)...))
+	// the concrete witnesses of the *_refuted theorems of coq/FmtPS/Properties.v (W1 = marker-text-last-line above), in every style
+	blk1 := begin + "\r\n" + se[0] + "AQ==" + se[1] + "\r\n" + end + "\r\n"
+	add("coq-w2-foreign-lf", []byte("ab\n"+blk1))
+	add("coq-w3-signed", []byte("a\r\n"+blk1))
+	add("coq-w3-trailing", []byte("a\r\n"+blk1+"evil"))
+	add("coq-w4-separator", []byte("aX\n"+blk1))
+	add("coq-w5-block-first", []byte(blk1))
+	add("coq-w5-lf-block", []byte("\n"+blk1))
+	add("coq-w6-u16-010a", []byte{0xff, 0xfe, 0x0a, 0x01})
+	add("coq-w7-u16-lone-lf", []byte{0xff, 0xfe, 0x61, 0x00, 0x0a})
 	// random texts
 	n := 12
 	if thorough {
